@@ -357,18 +357,21 @@ def rand_spec(rng):
             hi = lo + rng.randint(0, 5)
         variables.append([f"v{i}", lo, hi])
     r = rng.random()
-    if r < 0.22:  # unnamed (hidden) variables, or explicitly "_"-named ones
-        for i in rng.sample(range(nv), rng.randint(1, min(2, nv))):
+    if r < 0.3:  # unnamed (hidden) variables, or explicitly "_"-named ones; sometimes most of the model is hidden
+        for i in rng.sample(range(nv), rng.randint(1, min(3, nv))):
             variables[i][0] = None if rng.random() < 0.7 else f"_h{i}"
-    cons = [rand_constraint(rng, nv, dfs_only) for _ in range(rng.randint(1, 4))]
-    if want_circuit:
+    if rng.random() < 0.04:  # an empty declared domain (lb > ub): valid input, the answer is INFEASIBLE
+        i = rng.randrange(nv)
+        variables[i][2] = variables[i][1] - rng.randint(1, 2)
+    cons = [rand_constraint(rng, nv, dfs_only) for _ in range(rng.randint(0 if rng.random() < 0.1 else 1, 4))]
+    if want_circuit and cons:
         cons[0] = ["circuit", rng.sample(range(nv), nv)]
     if rng.random() < 0.25:  # gapped domains: punch holes with != const
         for _ in range(rng.randint(1, 3)):
             i = rng.randrange(nv)
-            cons.insert(rng.randint(0, len(cons)), ["lin", V(i), K(rng.randint(variables[i][1], variables[i][2])), True])
+            cons.insert(rng.randint(0, len(cons)), ["lin", V(i), K(rng.randint(variables[i][1], max(variables[i][1], variables[i][2]))), True])
     # make feasible models more likely: shift constants so that some constraints hold at a random point
-    point = [rng.randint(lo, hi) for _, lo, hi in variables]
+    point = [rng.randint(lo, max(lo, hi)) for _, lo, hi in variables]
     for k, c in enumerate(cons):
         if rng.random() < 0.6:
             if c[0] == "lin" and not c[3]:
@@ -389,7 +392,7 @@ def rand_hints(rng, spec):
     for i, (nm, lo, hi) in enumerate(spec["vars"]):
         if rng.random() < 0.6:
             key = nm if nm is not None else f"_v{i}"
-            h[key] = rng.randint(lo - 1, hi + 1)
+            h[key] = rng.randint(lo - 1, max(lo, hi) + 1)
     if rng.random() < 0.1:
         h["nosuch"] = 0
     return h
@@ -413,6 +416,14 @@ FIXED = [
     {"note": "sum_le([],-1)", "vars": [["x", 0, 1]], "cons": [["sum_le", [], -1]]},
     {"note": "all_different([x,x])", "vars": [["x", 0, 3]], "cons": [["all_different", [0, 0]]]},
     {"note": "hidden variable must be completed", "vars": [["x", 0, 3], [None, 0, 3]], "cons": [["lin", ["add", V(0), V(1)], K(5), False]]},
+    {"note": "hidden pigeonhole: three hidden 0/1 variables pairwise different, nothing is a singleton for propagation",
+     "vars": [["x", 0, 1], [None, 0, 1], [None, 0, 1], ["_c", 0, 1]],
+     "cons": [["lin", V(1), V(2), True], ["lin", V(1), V(3), True], ["lin", V(2), V(3), True]]},
+    {"note": "hidden h1==h2 and h1!=h2: arc consistent, unsatisfiable", "vars": [["x", 0, 2], [None, 0, 1], [None, 0, 1]],
+     "cons": [["lin", V(1), V(2), False], ["lin", V(1), V(2), True]]},
+    {"note": "hidden parity: 2*h1 + 2*h2 + 2*h3 == x + 1 has completions only for odd x",
+     "vars": [["x", 0, 3], [None, 0, 1], [None, 0, 1], [None, 0, 1]],
+     "cons": [["lin", ["add", ["add", ["mul", 2, V(1)], ["mul", 2, V(2)]], ["mul", 2, V(3)]], ["add", V(0), K(1)], False]]},
     {"note": "circuit n=4", "vars": [[f"s{i}", 0, 3] for i in range(4)], "cons": [["circuit", [0, 1, 2, 3]]]},
     {"note": "circuit n=1 is infeasible by the documented no-self-loop rule", "vars": [["x", 0, 0]], "cons": [["circuit", [0]]]},
     {"note": "circuit with successor domains outside 0..n-1", "vars": [[f"s{i}", -1, 3] for i in range(3)], "cons": [["circuit", [0, 1, 2]]]},
@@ -429,7 +440,7 @@ FIXED = [
 
 
 # ---------------------------------------------------------------- Coq terms (SV.C06.CpAst syntax)
-IMPORTS = "From SV Require Import C06.CpAst C05.CpDfs C05.CpSpec."
+IMPORTS = "From SV Require Import C06.CpAst C05.CpDfs C05.CpSpec C05.DfsSound."
 
 
 def coq_model(m):
@@ -666,6 +677,9 @@ def run(ctx: Ctx):
         ctx.sample({"spec": sp, "solutions": rec["truth_n"]}, 3)
         for solver, limit, h, bad, out in rec["bad"]:
             small = shrink(sp, solver, limit, h) if solver in SOLVERS else sp
+            if solver in SOLVERS and small != sp:
+                out = run_impl(small, solver, limit, h)
+                bad = judge(small, oracle(small), solver, limit, h, out) or bad
             ctx.violation(f"Model.solve(solver={solver!r}, solution_limit={limit}, hints={h}): {bad}",
                           {"spec": small, "solver": solver, "limit": limit, "hints": h, "original_spec": sp,
                            "impl": str(out)[:400]})
@@ -679,11 +693,11 @@ def run(ctx: Ctx):
 
     fail_dfs = ctx.coq_check(
         "dfs", IMPORTS, "cpmodel * list (nat * Z) * Z * list sol",
-        "fun c => let '(M, h, l, impl) := c in corr_set M h l impl && (if in_0_7 M then corr_exact M h l impl else true)",
+        "fun c => let '(M, h, l, impl) := c in wf_dfs M && corr_set M h l impl && (if in_0_7 M then corr_exact M h l impl else true)",
         dfs_cases, shard=120)
     fail_ans = ctx.coq_check(
         "answers", IMPORTS, "cpmodel * option (list sol)",
-        "fun c => answer_check (fst c) (snd c)", ans_cases, shard=150)
+        "fun c => wf_dfs (fst c) && answer_check (fst c) (snd c)", ans_cases, shard=150)
     ctx.count("coq_cases", "dfs", len(dfs_cases))
     ctx.count("coq_cases", "answers", len(ans_cases))
 
@@ -694,7 +708,7 @@ def run(ctx: Ctx):
 
     if (fail_dfs or ctx.broken) and not ctx.violations:
         found = False
-        budget = 6000
+        budget = 2500
         pool = [dfs_meta[i]["spec"] for i in fail_dfs[:20]]
         for k in range(budget):
             if pool and k % 3 == 0:
@@ -731,7 +745,7 @@ def run(ctx: Ctx):
         "oracle: brute force over the declared domain box (<= 5 variables, width <= 6) with an evaluator written in this module; "
         "circuit = successors in 0..n-1, no self-loop, one cycle (n=1 infeasible, n=0 vacuous) as documented in cp_encoder/test_cp; "
         "no_overlap = end_i <= start_j or end_j <= start_i; cumulative with capacity >= 0, demands >= 0",
-        "declared domains are non-empty (lb <= ub): precondition wf_model of the Coq model",
+        "a declared domain may be empty (lb > ub): the only valid answer is INFEASIBLE (commit 39644fa), modelled by CpDfs.solve",
         "value order of the DFS (iteration order of a Python set) is an oracle of the model: compared order-free, exactly only for domains inside 0..7",
         "SAT path is judged end-to-end by the oracle and by the Coq spec_check; its pieces (encoder, solver) are the subject of C06 / C01",
         "enumeration completeness (fewer answers than solution_limit => all solutions) is demanded only without hints",
